@@ -191,12 +191,21 @@ func attested(r *rand.Rand, powers []int64, chain int) [][]appTx {
 			break
 		}
 	}
-	proof := []string{"e1", "tx:garbage"}[r.Intn(2)]
+	proof := []string{"e1", "ethtx:5"}[r.Intn(2)]
 	b1 := []appTx{{Msgs: []appMsg{{Kind: "slc", Chain: chain, Data: "attested"}}}}
 	b2 := []appTx{{Msgs: []appMsg{{Kind: "estimate", Val: set[0], Chain: chain, Msg: -1, Gas: 21000}}},
 		{Msgs: []appMsg{{Kind: "pubdata", Val: set[0], Chain: chain, Msg: -1, Data: "txhash", Gas: 1}}}}
 	for _, v := range set {
 		b2 = append(b2, appTx{Msgs: []appMsg{{Kind: "evidence", Val: v, Chain: chain, Msg: -1, Data: proof}}})
+	}
+	if r.Intn(2) == 0 {
+		// round 7: the same validators report AGAIN for the same message with a proof of the other type before the tally (an
+		// error report after a tx proof or vice versa): the later report replaces the earlier one, one piece of evidence per
+		// validator — otherwise two groups could hold 2/3 and the winner would follow the map order
+		other := map[string]string{"e1": "ethtx:5", "ethtx:5": "e1"}[proof]
+		for _, v := range set {
+			b2 = append(b2, appTx{Msgs: []appMsg{{Kind: "evidence", Val: v, Chain: chain, Msg: -1, Data: other}}})
+		}
 	}
 	return [][]appTx{b1, b2}
 }
@@ -465,7 +474,31 @@ func corpusAppScripts() []*appScript {
 		{Height: 51, Time: 1_700_000_202, Txs: []appTx{{Msgs: []appMsg{{Kind: "extinfo", Val: 2, Chain: 1, Mixed: true, Data: "c", Trait: []string{"x", "y"}}}}}},
 		{Height: 100, Time: 1_700_000_300, Restart: true, Txs: nil},
 	}}
-	return []*appScript{a, b, c, d, e, g, h, k, m}
+	// (11) seeded C08-P: three of four equal validators hand in a tx proof for a relayed message and then an error report for
+	// the same message, and in a second message the other way round, all before the end blocker tallies.
+	evs := func(msg int, first, second string) []appTx {
+		var txs []appTx
+		for _, d := range []string{first, second} {
+			for v := 0; v < 3; v++ {
+				txs = append(txs, appTx{Msgs: []appMsg{{Kind: "evidence", Val: v, Msg: msg, Data: d}}})
+			}
+		}
+		return txs
+	}
+	p := &appScript{
+		Genesis: appGenesis{Powers: []int64{10, 10, 10, 10}, NChains: 1, Fees: [][]string{{"1.0"}, {"2.0"}, {"2.0"}, {"2.0"}},
+			Traits: [][]string{nil, nil, nil, nil}, Weights: [5]string{"1.0", "0", "0", "0", "0"}},
+		Blocks: []appBlock{
+			{Height: 2, Time: 1_700_000_100, Txs: []appTx{{Msgs: []appMsg{{Kind: "slc", Data: "p"}}}, {Msgs: []appMsg{{Kind: "slc", Data: "q"}}}}},
+			{Height: 3, Time: 1_700_000_102, Txs: append(append([]appTx{
+				{Msgs: []appMsg{{Kind: "estimate", Val: 0, Msg: -1, Gas: 21000}}}, {Msgs: []appMsg{{Kind: "estimate", Val: 0, Msg: -2, Gas: 21000}}},
+				{Msgs: []appMsg{{Kind: "pubdata", Val: 0, Msg: -1, Data: "txhash", Gas: 1}}}, {Msgs: []appMsg{{Kind: "pubdata", Val: 0, Msg: -2, Data: "txhash2", Gas: 1}}}},
+				evs(-1, "ethtx:7", "e1")...), evs(-2, "e1", "ethtx:8")...)},
+			{Height: 4, Time: 1_700_000_104, Txs: nil},
+			{Height: 10, Time: 1_700_000_116, Restart: true, Txs: nil},
+		},
+	}
+	return []*appScript{a, b, c, d, e, g, h, k, m, p}
 }
 
 // ---- parent side ----
